@@ -53,6 +53,7 @@ def parseThreads : Nat → List String → Option (List Thread × List String)
 def parseEv (s : String) : Option Ev :=
   if s == "C" then some .create
   else if s == "X" then some .expire
+  else if s == "Z" then some .stall
   else match s.toList with
     | 't' :: ds => (String.ofList ds).toNat?.map Ev.th
     | _ => none
@@ -72,7 +73,9 @@ def parseTail (tc ta : Nat) (sticky : Bool) (fine : Bool) : List String → Opti
     let pn ← pn.toNat?
     let n ← n.toNat?
     let (ths, ts) ← parseThreads n ts
-    let p : Params := { tc := tc, ta := ta, max := m, sticky := sticky }
+    -- the claim's lifetime in stalls of 3.5 s, from the regenerated codeClaimTTL
+    let p : Params := { tc := tc, ta := ta, max := m, sticky := sticky,
+                        lease := (Gen.conncode.codeClaimTTL + 3500000000 - 1) / 3500000000 }
     if fine then
       if ts.isEmpty then pure ⟨p, pc, pn, ths, [.create], true⟩ else none
     else match ts with
